@@ -139,6 +139,35 @@ def ob_metadata_step(v: int, keepv: int, pvol: bool, with_store: bool) -> bool:
     return check(ok, "ok")
 
 
+def ob_metadata_prederr(v: int, with_store: bool, pvol: bool) -> bool:
+    """
+    pre: -99 <= v <= 99
+    post: _
+    """
+    q, ptext = [("p/addn-5", "p"), ("p/addn-5/out.json", "p/addn-5"), ("p/tagged", "p")][part("q")]
+    sp = mkstate(ptext, Box(v), error=True, volatile=pvol)
+    cache = MemoryCache()
+    store = MemoryStore()
+    ctx = HContext(cache, {ptext: sp}, store=store)
+    key = "res/e.txt" if with_store else None
+    with quiet():
+        out = ctx.evaluate(q, store_key=key)
+    m = out.metadata
+    canonical = parse(q).encode()
+    ok = bool(out.is_error) and m["status"] == "error" and m["is_error"] is True and m["query"] == canonical
+    ok = ok and any("pred failed" in (e.get("message") or "") for e in m.get("log", []) + m.get("child_log", []))
+    cm = cache.get_metadata(canonical)
+    if cm is not None:
+        # a failed evaluation: the kept copy is marked as error in status AND in the error flag and carries the message
+        ok = ok and cm.get("status") == "error" and cm.get("is_error") is True
+        ok = ok and any("pred failed" in (e.get("message") or "") for e in cm.get("log", []) + cm.get("child_log", []))
+    if with_store:
+        sm = store.get_metadata(key)
+        ok = ok and sm.get("status") == "error" and sm.get("is_error") is True
+        ok = ok and any("pred failed" in (e.get("message") or "") for e in sm.get("log", []) + sm.get("child_log", []))
+    return check(ok)
+
+
 EXTS = sorted(MIMETYPES.keys())
 
 
@@ -183,6 +212,9 @@ def obligations(tier):
     for i in range(len(FAMILY)):
         obs.append(Ob("ob_metadata_step", dict(q=i), timeout=t, per_path=60, twin_timeout=60,
                       bounds="Q=%s; symbolic predecessor data -99..99, capitalised attribute 0..9, volatile flag, with/without store_key" % FAMILY[i][0]))
+    for i in range(3):
+        obs.append(Ob("ob_metadata_prederr", dict(q=i), timeout=t, per_path=60, twin_timeout=60,
+                      bounds="failure upstream: Q=%s with an ERROR predecessor; returned metadata, MemoryCache copy and store copy" % ["p/addn-5", "p/addn-5/out.json", "p/tagged"][i]))
     obs.append(Ob("ob_mimetype", {}, timeout=t, per_path=30, bounds="every extension of constants.MIMETYPES (%d) + one unknown, lower/upper case" % len(EXTS)))
     obs.append(Ob("ob_wrapper", dict(n=2 if q else 3), timeout=t, per_path=30, bounds="Metadata wrapper: <=%d assignments to status (4 values) / is_error" % (2 if q else 3)))
     return obs
